@@ -28,6 +28,7 @@ Intervals(K) == {<<lo, hi, il, iu>> : lo \in PoolCodes(K) \cup {NINF}, hi \in Po
 Accepts(I, x) == /\ (IF I[3] = 1 THEN x >= I[1] ELSE x > I[1])
                  /\ (IF I[4] = 1 THEN x <= I[2] ELSE x < I[2])
 AcceptSet(I, K) == {x \in FinCodes(K) : Accepts(I, x)}
+AcceptSetX(I, K) == {x \in FinCodes(K) \cup {NINF, PINF} : Accepts(I, x)}
 EmptyDef(I, K)  == AcceptSet(I, K) = {}
 IncludesDef(I, a, b, K) == \A x \in FinCodes(K) : (a <= x /\ x <= b) => Accepts(I, x)
 \* the accepted value nearest to the request x (codes are ordered like the reals they stand for)
@@ -57,6 +58,20 @@ AcceptedLimit(I, x) ==
   ELSE IF Below(I, x) THEN (IF I[3] = 1 THEN I[1] ELSE I[1] + 1)
   ELSE (IF I[4] = 1 THEN I[2] ELSE I[2] - 1)
 
+\* comparisons (Constraints.h: operator== / != "equals / is different from another one": bounds and flags;
+\* operator<=(interval) "is included or equal in another one"; interval < > <= >= value: every accepted real is)
+SameI(I, J) == I = J
+SubI(I, J)  == /\ (I[1] > J[1] \/ (I[1] = J[1] /\ (J[3] = 1 \/ I[3] = 0)))
+               /\ (I[2] < J[2] \/ (I[2] = J[2] /\ (J[4] = 1 \/ I[4] = 0)))
+AllLt(I, v) == IF I[4] = 1 THEN I[2] < v ELSE I[2] <= v
+AllGt(I, v) == IF I[3] = 1 THEN I[1] > v ELSE I[1] >= v
+AllLe(I, v) == I[2] <= v
+AllGe(I, v) == I[1] >= v
+\* test values of the value comparisons: pool points and points strictly between two of them (a value one precision
+\* step away from an open bound has accepted reals on both sides that no code stands for)
+\* (nor do the two outermost codes, beyond which there are reals without a code)
+CmpCodes(K) == {x \in FinCodes(K) : x % 4 \in {0, 2} /\ x > -2 /\ x < 4 * (K - 1) + 2}
+
 \* ---------------------------------------------------------------- transcription of the code as found (kept to show
 \* that the lemmas below discriminate: TLC refutes them for these operators)
 InterOld(I, J) ==
@@ -65,6 +80,7 @@ InterOld(I, J) ==
     IF I[1] <= J[1] THEN J[3] ELSE I[3],
     IF I[2] >= J[2] THEN J[4] ELSE I[4]>>
 IsEmptyOld(I) == I[1] > I[2]
+SubOld(I, J)  == I[1] >= J[1] /\ I[2] <= J[2]
 
 \* ---------------------------------------------------------------- lemmas (evaluated exhaustively by IntervalLemmas)
 LemInter(K, F(_, _))  == \A I, J \in Intervals(K) : AcceptSet(F(I, J), K) = AcceptSet(I, K) \cap AcceptSet(J, K)
@@ -77,6 +93,15 @@ LemLimit(K)           == \A I \in Intervals(K) : ~IsEmpty(I) => \A x \in FinCode
                             /\ (Accepts(I, x) <=> Limit(I, x) = x /\ AcceptedLimit(I, x) = x)
                             /\ (~Accepts(I, x) => /\ Limit(I, x) = (IF \A y \in AcceptSet(I, K) : x < y THEN I[1] ELSE I[2])
                                                   /\ Accepts(I, AcceptedLimit(I, x)))
+\* (an included infinite bound accepts the infinite value: the comparisons between intervals are stated on the
+\*  accepted values including -inf / +inf, AcceptSetX; the trace asserts them where this makes no difference)
+LemSame(K)            == \A I, J \in Intervals(K) : (~IsEmpty(I) /\ ~IsEmpty(J)) => (SameI(I, J) <=> AcceptSetX(I, K) = AcceptSetX(J, K))
+LemSub(K, S(_, _))    == \A I, J \in Intervals(K) : ~IsEmpty(I) => (S(I, J) <=> AcceptSetX(I, K) \subseteq AcceptSetX(J, K))
+LemCmp(K)             == \A I \in Intervals(K) : ~IsEmpty(I) => \A v \in CmpCodes(K) :
+                            /\ AllLt(I, v) <=> \A x \in AcceptSet(I, K) : x < v
+                            /\ AllGt(I, v) <=> \A x \in AcceptSet(I, K) : x > v
+                            /\ AllLe(I, v) <=> \A x \in AcceptSet(I, K) : x <= v
+                            /\ AllGe(I, v) <=> \A x \in AcceptSet(I, K) : x >= v
 LemInterAlgebra(K)    == \A I, J \in Intervals(K) : /\ AcceptSet(Inter(I, J), K) = AcceptSet(Inter(J, I), K)
                                                      /\ Inter(I, I) = I
 =============================================================================
